@@ -449,8 +449,12 @@ func (r *renderState) filterRaw(rawHTML []byte) {
 					if r.FilterTag(tagName) {
 						r.dst = append(r.dst, rawHTML[copyStart:i]...)
 						r.dst = append(r.dst, "&lt;"...)
-						r.dst = append(r.dst, rawHTML[tagNameStart:tagEnd]...)
-						copyStart = tagEnd
+						// The escaped '<' no longer opens a tag:
+						// an HTML tokenizer reads what follows as text
+						// and looks for tags in it.
+						copyStart = tagNameStart
+						i = tagNameStart
+						continue
 					}
 					i = tagEnd
 				}
